@@ -9,6 +9,7 @@ from vlib import cgen
 from vlib.harness import SubCheck, must, require, Violation
 
 PROPERTY_ID = "C19"
+TECHNIQUE = 'grammar-based property-based testing (Hypothesis) with numeric evaluation oracle; refusal checks; coverage-guided fuzzing (Atheris) of the translator in the thorough tier'
 RULE = (
     "Expression trees from a grammar over symbols (names with digit groups), Integer, Float, Rational, "
     "I, + - * /, negation, reciprocal, integer / rational / symbolic powers, sqrt, sin/cos/exp/tan, "
